@@ -19,6 +19,7 @@ func init() {
 }
 
 func c08(c *Ctx) {
+	c.clientStatusFamily("client", "Handoff", "Promote")
 	c.primaryOnlyHandlers("primary-only")
 	c.NoDiscardedErrors("errors/none-dropped", []string{"consul"}, discardLease, 1)
 	p := c.P
